@@ -2,6 +2,9 @@ import Splipy.Lemmas.C14Grid
 import Splipy.Lemmas.C14Proj
 import Splipy.Lemmas.C14Cubic
 import Splipy.Lemmas.C14Spec
+import Splipy.Lemmas.C14Through
+import Splipy.Lemmas.C14LsqGrid
+import Splipy.Lemmas.C14Loft
 import Mathlib.Data.Rat.Floor
 
 /-!
@@ -72,6 +75,7 @@ theorem C14_interpolate_surface (bu bv : Basis K) (tol : K) (u : Option (List (L
     (h : interpolateGridCore [bu, bv] tol u x = .ok cp) :
     ∃ (x' : Tensor K) (d : ℕ), gridInput [bu, bv] x = .ok x' ∧ x'.data = x.data ∧
       x'.shape = [tu.length, tv.length, d] ∧ cp.shape = [tu.length, tv.length, d] ∧
+      cp.data.size = tu.length * tv.length * d ∧
       tu.length = bu.numFunctions ∧ tv.length = bv.numFunctions ∧
       ∀ i < tu.length, ∀ j < tv.length, ∀ k < d,
         (Tensor.applyAxis (colloc bu tol tu 0) (Tensor.applyAxis (colloc bv tol tv 0) cp 1) 0).entry3 tv.length d i j k
@@ -114,6 +118,7 @@ theorem C14_interpolate_volume (bu bv bw : Basis K) (tol : K) (u : Option (List 
     (h : interpolateGridCore [bu, bv, bw] tol u x = .ok cp) :
     ∃ (x' : Tensor K) (d : ℕ), gridInput [bu, bv, bw] x = .ok x' ∧ x'.data = x.data ∧
       x'.shape = [tu.length, tv.length, tw.length, d] ∧ cp.shape = [tu.length, tv.length, tw.length, d] ∧
+      cp.data.size = tu.length * tv.length * tw.length * d ∧
       tu.length = bu.numFunctions ∧ tv.length = bv.numFunctions ∧ tw.length = bw.numFunctions ∧
       ∀ i < tu.length, ∀ j < tv.length, ∀ k < tw.length, ∀ l < d,
         (Tensor.applyAxis (colloc bu tol tu 0) (Tensor.applyAxis (colloc bv tol tv 0)
@@ -154,6 +159,41 @@ theorem C14_interpolate_volume (bu bv bw : Basis K) (tol : K) (u : Option (List 
                 subst this
                 exact interpolate_volume_aux bu bv bw tol tu tv tw x x' cp iu iv iw A B C D htu htv htw hx' hdata hsh
                   hiu hiv hiw h
+
+/-- **The transposes between factory and constructor cancel (surfaces).**
+`cp.transpose(1,0,2).reshape((n_u·n_v, dim))` followed by the constructor's `reshape(order='F')`
+returns the control net unchanged: the full `surface_factory.interpolate` (model `interpolateGrid`)
+equals its linear-algebra core, so `C14_interpolate_surface` is a statement about the control net of
+the returned `Surface`. -/
+theorem C14_through_constructor_surface (bu bv : Basis K) (tol : K) (u : Option (List (List K)))
+    (tu tv : List K) (x cp : Tensor K)
+    (hp : gridParams [bu, bv] u = .ok [tu, tv]) (htu : tu ≠ []) (htv : tv ≠ [])
+    (hx : x.shape.length = 2 ∨ x.shape.length = 3)
+    (h : interpolateGridCore [bu, bv] tol u x = .ok cp) :
+    interpolateGrid [bu, bv] tol u x = .ok cp := by
+  obtain ⟨x', d, _, _, _, hsh, hsz, _⟩ := C14_interpolate_surface bu bv tol u tu tv x cp hp htu htv hx h
+  obtain ⟨r, hr, rsh, rsz, rent⟩ := throughConstructor3 cp hsh
+  have : r = cp := tensor_ext3 cp r hsh rsh hsz rsz rent
+  subst this
+  unfold interpolateGrid
+  simp only [bind, Except.bind, h, List.length_cons, List.length_nil]
+  exact hr
+
+/-- The same for volumes (`cp.transpose(2,1,0,3)` and the `order='F'` reshape cancel). -/
+theorem C14_through_constructor_volume (bu bv bw : Basis K) (tol : K) (u : Option (List (List K)))
+    (tu tv tw : List K) (x cp : Tensor K)
+    (hp : gridParams [bu, bv, bw] u = .ok [tu, tv, tw]) (htu : tu ≠ []) (htv : tv ≠ []) (htw : tw ≠ [])
+    (hx : x.shape.length = 2 ∨ x.shape.length = 4)
+    (h : interpolateGridCore [bu, bv, bw] tol u x = .ok cp) :
+    interpolateGrid [bu, bv, bw] tol u x = .ok cp := by
+  obtain ⟨x', d, _, _, _, hsh, hsz, _⟩ :=
+    C14_interpolate_volume bu bv bw tol u tu tv tw x cp hp htu htv htw hx h
+  obtain ⟨r, hr, rsh, rsz, rent⟩ := throughConstructor4 cp hsh
+  have : r = cp := tensor_ext4 cp r hsh rsh hsz rsz rent
+  subst this
+  unfold interpolateGrid
+  simp only [bind, Except.bind, h, List.length_cons, List.length_nil]
+  exact hr
 
 /-- **Interpolation is a projection.**  If the data are sampled from a spline of the target space,
 `x_i = Σ_l N_l(ts_i) · c0_l`, and the collocation matrix is invertible (the model computes its inverse),
@@ -237,6 +277,198 @@ theorem C14_projection_least_squares (b : Basis K) (tol : K) (ts : List K) (x c 
         intro l' hl'
         rw [get_normal N i l' (by rw [hcols]; exact hi) (by rw [hcols]; exact mem_range.mp hl'), sum_mul])
     exact this l (by rw [hG]; exact hl)
+
+omit [FloorRing K] in
+/-- Both accepted input layouts of `least_square_fit` (flat matrix `(m_u·m_v) × dim` or tensor
+`m_u × m_v × dim`) give the same `m_u × m_v × dim` array with the same flat data. -/
+theorem C14_gridInputLsq_layouts (tu tv : List K) (x : Tensor K) (d : ℕ)
+    (hx : x.shape = [tu.length * tv.length, d] ∨ x.shape = [tu.length, tv.length, d]) :
+    gridInputLsq [tu, tv] x = .ok { shape := [tu.length, tv.length, d], data := x.data } := by
+  unfold gridInputLsq
+  rcases hx with h | h
+  · rw [h]
+    simp only [List.length_cons, List.length_nil, if_true, List.map_cons, List.map_nil, Interp.reshape,
+      List.getLastD, List.getLast, List.cons_append, List.nil_append]
+    have : Tensor.prod [tu.length, tv.length, d] = Tensor.prod x.shape := by
+      rw [h]; simp only [Tensor.prod, List.foldl]; ring
+    rw [if_neg (by rw [this]; simp)]
+  · rw [h]
+    simp only [List.length_cons, List.length_nil]
+    rw [if_neg (by decide)]
+    congr 1
+    rcases x with ⟨sh, dat⟩
+    simp only at h
+    subst h
+    rfl
+
+/-- **Least-squares fitting on a surface grid is a projection** (non-square, over-determined): if the
+data are sampled from a tensor-product spline of the target space,
+`x[i][j] = Σ_a Σ_b N_a(u_i) M_b(v_j) c0[a][b]`, and the two normal matrices are invertible, then the
+two loops of `surface_factory.least_square_fit` return exactly `c0` (shape `n_u × n_v × dim`). -/
+theorem C14_projection_least_squares_surface (bu bv : Basis K) (tol : K) (tu tv : List K)
+    (x x' cp : Tensor K) (d : ℕ) (c0 : ℕ → ℕ → ℕ → K) (Giu Giv : Mat K)
+    (htu : tu ≠ []) (htv : tv ≠ [])
+    (hx' : gridInputLsq [tu, tv] x = .ok x') (hsh : x'.shape = [tu.length, tv.length, d])
+    (hGu : invC (Mat.mul (Mat.transpose (colloc bu tol tu 0)) (colloc bu tol tu 0)) = .ok Giu)
+    (hGv : invC (Mat.mul (Mat.transpose (colloc bv tol tv 0)) (colloc bv tol tv 0)) = .ok Giv)
+    (hdata : ∀ i < tu.length, ∀ j < tv.length, ∀ k < d,
+      x'.entry3 tv.length d i j k
+        = ∑ a ∈ range bu.numFunctions, (bu.evaluate tol (tu.getD i 0) 0 true).getD a 0 *
+            ∑ b ∈ range bv.numFunctions, (bv.evaluate tol (tv.getD j 0) 0 true).getD b 0 * c0 a b k)
+    (h : leastSquareGridCore [bu, bv] tol [tu, tv] x = .ok cp) :
+    cp.shape = [bu.numFunctions, bv.numFunctions, d] ∧
+    ∀ a < bu.numFunctions, ∀ b < bv.numFunctions, ∀ k < d,
+      cp.entry3 bv.numFunctions d a b k = c0 a b k := by
+  apply leastSquareSurface_projection bu bv tol tu tv x x' cp d c0 Giu Giv htu htv hx' hsh hGu hGv _ h
+  intro i hi j hj k hk
+  rw [hdata i hi j hj k hk]
+  apply sum_congr rfl
+  intro a _
+  rw [get_colloc bu tol tu 0 i a hi]
+  congr 1
+  exact sum_congr rfl (fun b _ => by rw [get_colloc bv tol tv 0 j b hj])
+
+/-- **Lofting passes through every section, in order** (curve sections that are already identical —
+`make_splines_identical` is property C12).  If `surface_factory.loft` (model, `n ≥ 3` sections with
+`m × ncomp` control nets on the common basis `b1`) returns the lofting basis `bL` and the control net
+`cp` (`m × n × ncomp`, AFTER the transposes of factory and constructor), then interpolating in the
+lofting direction at the `i`-th lofting parameter `v_i` gives back the `i`-th section's control net:
+`Σ_j N^L_j(v_i) · cp[a][j] = sec_i[a]` — hence the surface restricted to `v = v_i` is section `i`. -/
+theorem C14_loft_curves (b1 bL : Basis K) (tol : K) (secs : List (Tensor K)) (dist v : List K)
+    (m nc : ℕ) (cp : Tensor K) (hm : 0 < m) (hm1 : m = b1.numFunctions) (hn : 0 < secs.length)
+    (hsecs : ∀ s ∈ secs, s.shape = [m, nc])
+    (hlb : loftBasis tol secs.length dist = .ok (bL, v)) (hv : v.length = secs.length)
+    (h : loft [b1] tol secs dist = .ok (bL, cp)) :
+    cp.shape = [m, secs.length, nc] ∧
+    ∀ i < secs.length, ∀ a < m, ∀ c < nc,
+      ∑ j ∈ range secs.length, (bL.evaluate tol (v.getD i 0) 0 true).getD j 0 * cp.entry3 secs.length nc a j c
+        = (secs.getD i default).entry2 nc a c := by
+  unfold loft at h
+  simp only [bind, Except.bind, pure, Except.pure, hlb, List.mapM_cons, List.mapM_nil, List.length_cons,
+    List.length_nil] at h
+  split at h
+  · exact absurd h (by simp)
+  · rename_i us hus
+    split at hus
+    · exact absurd hus (by simp)
+    · rename_i g1 hg1
+      have hus' : us = [g1] := by cases hus; rfl
+      subst hus'
+      simp only [List.zip_cons_cons, List.zip_nil_right, List.map_cons, List.map_nil, List.cons_append,
+        List.nil_append, List.reverse_cons, List.reverse_nil, Nat.zero_add, Nat.reduceAdd] at h
+      split at h
+      · exact absurd h (by simp)
+      · rename_i invs hinvs
+        simp only [List.mapM_cons, List.mapM_nil, bind, Except.bind, pure, Except.pure] at hinvs
+        split at hinvs
+        · exact absurd hinvs (by simp)
+        · rename_i iL hiL
+          split at hinvs
+          · exact absurd hinvs (by simp)
+          · rename_i tail htail
+            split at htail
+            · exact absurd htail (by simp)
+            · rename_i iu hiu
+              have : tail = [iu] := by cases htail; rfl
+              subst this
+              have : invs = [iL, iu] := by cases hinvs; rfl
+              subst this
+              split at h
+              · exact absurd h (by simp)
+              · rename_i pts hpts
+                split at h
+                · exact absurd h (by simp)
+                · rename_i cp0 hcp0
+                  split at h
+                  · exact absurd h (by simp)
+                  · rename_i cp1 hcp1
+                    have hcpe : cp1 = cp := by
+                      simp only [Except.ok.injEq, Prod.mk.injEq] at h; exact h.2
+                    subst hcpe
+                    have hg1l : g1.length = m := by
+                      unfold Except.map at hg1
+                      split at hg1
+                      · exact absurd hg1 (by simp)
+                      · rename_i ga hga
+                        have : g1 = ga.toList := by cases hg1; rfl
+                        rw [this, hm1, Array.length_toList]
+                        exact greville_size b1 ga hga
+                    obtain ⟨r1, r2⟩ := loft_curves_aux b1 bL tol secs pts g1 v m nc iu iL _ cp0 cp1 hm hg1l hn hv
+                      hsecs hiu hiL hpts rfl hcp0 hcp1
+                    refine ⟨r1, fun i hi a ha c hc => ?_⟩
+                    rw [← r2 i hi a ha c hc]
+                    exact sum_congr rfl (fun j _ => by rw [get_colloc bL tol v 0 i j (by omega)])
+
+omit [Field K] [LinearOrder K] [FloorRing K] in
+private theorem getD_extract_c14 {α : Type} (a : Array α) (s len j : ℕ) (d : α) (hj : j < len) :
+    (a.extract s (s + len)).getD j d = a.getD (s + j) d := by
+  rw [Array.getD_eq_getD_getElem?, Array.getD_eq_getD_getElem?, Array.getElem?_extract]
+  have : j < min (s + len) a.size - s ↔ s + j < a.size := by omega
+  by_cases h : s + j < a.size
+  · simp [h, this.mpr h]
+  · have h' : ¬ j < min (s + len) a.size - s := fun x => h (this.mp x)
+    simp [h, h']
+
+/-- **`Curve.rebuild(p, n)` interpolates the original curve at the Greville points of the new basis.**
+The returned basis has order `p`; with `t` its Greville points and `xs = self.evaluate(t)` (the model's
+`Obj.evaluate`, for which C02 gives the specification value), the returned control points satisfy
+`Σ_l N_l(t_i) · cp_l = xs_i` for every `i` and component `j`. -/
+theorem C14_rebuild (o : Obj K) (tol : K) (p n : ℕ) (b2 : Basis K) (cp : Mat K)
+    (h : rebuild o tol p n = .ok (b2, cp)) :
+    b2.order = p ∧ b2.periodic = -1 ∧
+    ∃ (t : Array K) (xs : Tensor K), b2.greville = .ok t ∧ o.evaluate tol [t.toList] true = .ok xs ∧
+      t.size = b2.numFunctions ∧
+      ∀ i < t.size, ∀ j < cp.ncols, j < xs.shape.getLastD 1 →
+        ∑ l ∈ range b2.numFunctions, (b2.evaluate tol (t.toList.getD i 0) 0 true).getD l 0 * cp.get l j
+          = xs.get (i * xs.shape.getLastD 1 + j) := by
+  unfold rebuild at h
+  simp only [bind, Except.bind, pure, Except.pure] at h
+  split at h
+  · exact absurd h (by simp)
+  · rename_i b hb
+    obtain ⟨ho, _, hper, _⟩ := Basis.mk?_ok_c14 _ _ _ _ _ hb
+    split at h
+    · exact absurd h (by simp [throw, throwThe, MonadExceptOf.throw])
+    · split at h
+      · exact absurd h (by simp)
+      · rename_i t ht
+        split at h
+        · exact absurd h (by simp)
+        · rename_i xs hxs
+          split at h
+          · exact absurd h (by simp [throw, throwThe, MonadExceptOf.throw])
+          · rename_i hsq
+            split at h
+            · exact absurd h (by simp)
+            · rename_i cp' hsolve
+              simp only [Except.ok.injEq, Prod.mk.injEq] at h
+              obtain ⟨hb2, hcp⟩ := h
+              subst hcp
+              rw [hb2] at ht hsq hsolve
+              rw [← hb2]
+              refine ⟨ho, by rw [hper]; rfl, ?_⟩
+              rw [hb2]
+              have hts : t.size = b2.numFunctions := greville_size b2 t ht
+              refine ⟨t, xs, ht, hxs, hts, fun i hi j hj hjd => ?_⟩
+              have hN : (colloc b2 tol t.toList 0).size = t.size := by rw [size_colloc]; simp
+              have hpos : 0 < t.toList.length := by simp; omega
+              have hrows : cp'.nrows = b2.numFunctions := by
+                have := (solveC_ok hsolve).1
+                unfold Mat.nrows; rw [this]
+                unfold Mat.ncols
+                rw [row_colloc b2 tol t.toList 0 0 hpos, size_evaluate_c14]
+              have := solveC_entries hsolve i j (by unfold Mat.nrows; rw [hN]; exact hi) hj
+              rw [hrows] at this
+              have e : Mat.get (Array.ofFn (n := t.size) (fun i : Fin t.size =>
+                  xs.data.extract (i.val * xs.shape.getLastD 1) (i.val * xs.shape.getLastD 1 + xs.shape.getLastD 1))) i j
+                  = xs.get (i * xs.shape.getLastD 1 + j) := by
+                unfold Mat.get Tensor.get
+                rw [getD_ofFn_c14 _ _ _ _ hi]
+                exact getD_extract_c14 _ _ _ _ _ hjd
+              rw [e] at this
+              rw [← this]
+              exact sum_congr rfl (fun l _ => by
+                rw [get_colloc b2 tol t.toList 0 i l (by simp; exact hi)])
 
 /-- **`cubic_curve`: the assembled system is square for every boundary type** (rows vs unknowns as a
 function of the number `n` of parameters).  Unknowns: `len(knot) − 4 − (periodic+1)` with
